@@ -231,6 +231,58 @@ static void op_eval(struct arg *a, int n, FILE *out) {
 	unlink(fpath);
 }
 
+/* inspect <home> <confpath> <key> <val> <lno> <subs: beg/end+beg/end..., x/x for an unset group>
+ * -> hex of what the real expr_inspect() prints for a header entry with these sub-matches (locale: LC_CTYPE of the environment) */
+static void op_inspect(struct arg *a, int n, FILE *out) {
+	struct environment env;
+	struct expr ex;
+	struct match mh;
+	char *buf = NULL, *tok, *save = NULL;
+	size_t len = 0, cap = 0;
+	FILE *mem, *savefh;
+	(void)n;
+	memset(&env, 0, sizeof(env));
+	memset(&ex, 0, sizeof(ex));
+	memset(&mh, 0, sizeof(mh));
+	strlcpy(env.ev_home, (const char *)a[0].p, sizeof(env.ev_home));
+	env.ev_confpath = (const char *)a[1].p;
+	env.ev_options = OPTION_DRYRUN;
+	ex.ex_type = EXPR_TYPE_HEADER;
+	ex.ex_flags = EXPR_FLAG_INSPECT;
+	ex.ex_lno = (unsigned int)strtoul((const char *)a[4].p, NULL, 10);
+	mh.mh_expr = &ex;
+	mh.mh_key = (char *)a[2].p;
+	mh.mh_val = (char *)a[3].p;
+	for (tok = strtok_r((char *)a[5].p, "+", &save); tok != NULL; tok = strtok_r(NULL, "+", &save)) {
+		char *sl = strchr(tok, '/');
+		if (sl == NULL) { fputs("BADOP", out); return; }
+		if (mh.mh_nmatches == cap) {
+			cap = cap ? 2 * cap : 4;
+			mh.mh_matches = realloc(mh.mh_matches, cap * sizeof(*mh.mh_matches));
+		}
+		mh.mh_matches[mh.mh_nmatches].m_str = NULL;
+		if (tok[0] == 'x') {
+			mh.mh_matches[mh.mh_nmatches].m_beg = (size_t)-1;
+			mh.mh_matches[mh.mh_nmatches].m_end = (size_t)-1;
+		} else {
+			mh.mh_matches[mh.mh_nmatches].m_beg = (size_t)strtoul(tok, NULL, 10);
+			mh.mh_matches[mh.mh_nmatches].m_end = (size_t)strtoul(sl + 1, NULL, 10);
+		}
+		mh.mh_nmatches++;
+	}
+	mem = open_memstream(&buf, &len);
+	savefh = stdout;
+	fflush(stdout);
+	stdout = mem;
+	expr_inspect(&ex, &mh, &env);
+	fflush(mem);
+	stdout = savefh;
+	fclose(mem);
+	puthex(out, buf, len);
+	free(buf);
+	free(mh.mh_matches);
+}
+
 /* ast <conf> <home>: every block of the configuration as the real parser built it */
 static void op_ast(struct arg *a, int n, FILE *out) {
 	struct config_list cl;
@@ -323,6 +375,7 @@ static void op_small(const char *op, struct arg *a, int n, FILE *out) {
 static void handle(const char *op, struct arg *a, int n, FILE *out) {
 	if (strcmp(op, "eval") == 0 && n >= 6) op_eval(a, n, out);
 	else if (strcmp(op, "ast") == 0 && n == 2) op_ast(a, n, out);
+	else if (strcmp(op, "inspect") == 0 && n == 6) op_inspect(a, n, out);
 	else if (strcmp(op, "eval") != 0) op_small(op, a, n, out);
 	else fputs("BADOP", out);
 }
